@@ -244,3 +244,38 @@ def run(repo: Repo, rep: Report, tier: str) -> None:
     rep.check(src == "self.context.transfer_syntax", "codec-flags", "events.Event._get_dataset", f"decode flags come from {src}", "the handler-side decode must use the transfer syntax of the context the request arrived on (Event.context), not any other syntax", mod=evm, node=dcalls[0])
     bs = [s_ for s_ in walk_no_nested(gd) if isinstance(s_, ast.Assign) and norm(s_.targets[0]) == norm(dcalls[0].args[0])]
     rep.check(len(bs) == 1 and norm(bs[0].value) == "getattr(self.request, attr)", "codec-flags", "events.Event._get_dataset", bs[0] if bs else "bytestream", "the decoded stream must be the named data-set parameter of this event's request", mod=evm, node=gd)
+
+    # ---- the context a handler decodes with is the one the request arrived on ------------------
+    rep.rule("event-context", "the `context` given to a DIMSE handler's event is the presentation context of the request's own id")
+    from .c26 import event_kinds
+    kinds = event_kinds(repo)
+    n_ctx = 0
+    for mname, m in sorted(repo.modules.items()):
+        short = mname.replace("pynetdicom.", "")
+        if short.startswith(("apps.", "tests.", "benchmarks.")) or short == "events":
+            continue
+        for c in ast.walk(m.tree):
+            if not (isinstance(c, ast.Call) and (dotted(c.func) or "") == "evt.trigger" and len(c.args) >= 3 and isinstance(c.args[2], ast.Dict)):
+                continue
+            en = (dotted(c.args[1]) or "").split(".")[-1]
+            if kinds.get(en) != "InterventionEvent" or not (en.startswith("EVT_C_") or en.startswith("EVT_N_")):
+                continue
+            attrs = {k.value: v for k, v in zip(c.args[2].keys, c.args[2].values) if isinstance(k, ast.Constant)}
+            fn = enclosing(c, (ast.FunctionDef,))
+            fqn = f"{short}.{qualname(c)}"
+            n_ctx += 1
+            cv = attrs.get("context")
+            ok = cv is not None and isinstance(cv, ast.Attribute) and cv.attr == "as_tuple" and isinstance(cv.value, ast.Name)
+            src_ok = False
+            if ok:
+                var = cv.value.id
+                params = [a.arg for a in fn.args.args]
+                rebound = [s_ for s_ in walk_no_nested(fn) if isinstance(s_, ast.Assign) and norm(s_.targets[0]) == var]
+                if var in params and not rebound:
+                    src_ok = True  # the SCP's context parameter: _serve_request looked it up by the request's id (C19)
+                elif len(rebound) == 1 and isinstance(strip_cast(rebound[0].value), ast.Call) and norm(strip_cast(rebound[0].value).func) == "self._get_valid_context":
+                    kw = {k.arg: norm(k.value) for k in strip_cast(rebound[0].value).keywords}
+                    rq = norm(attrs["request"]) if "request" in attrs else "req"
+                    src_ok = kw.get("context_id") == f"{rq}._context_id"
+            rep.check(ok and src_ok, "event-context", fqn, enclosing(c, (ast.stmt,)), f"the event of {en} carries a context that is not tied to the request's own presentation context id: Event.dataset / identifier / encoded_dataset then decode the received bytes with another context's transfer syntax (wrong byte order / deflate) when two accepted contexts share the SOP class", mod=m, node=c)
+    rep.floor("DIMSE handler events carrying a context", n_ctx, 13)
